@@ -25,7 +25,30 @@ CHECKS = {
             "previously empty slot for every one of the 2^14 occupancy patterns (over-approximated pre-state); no other call changes occupancy. Hence any number of create-put-read cycles.", "4 C06"),
 }
 
+K_NOTE = ("Trusted base: Kani 0.68 (MIR -> GOTO translation, its pinned nightly toolchain) and CBMC 6.11 with CaDiCaL; unwinding assertions on. "
+          "Stubs: alloc::fmt::format and std::backtrace::Backtrace::capture in the numeric-conversion harnesses (error text is not part of the property). "
+          "Outside the claim: byte strings longer than 10 bytes (9 per concat operand), Hex::Bytes(_, len>8), print/from_str (formatting).")
+K_TECH = "Kani proof harnesses over kani::any() inputs, decided by CBMC/CaDiCaL (bounded: unwind 12, unwinding assertions)"
+KCHECKS = {
+    'C15': ("model_checking", "Bounded model checking of the compiled Hex code for ALL byte strings of 0..=10 bytes in both representations (inline with arbitrary padding, heap), "
+            "every index and every bound of the six range kinds as unconstrained usize: ok-harnesses compare with the byte slice, panic-harnesses show every path panics exactly "
+            "when the slice index would. Equality across representations; i64/f64 conversions bit-exact, Err iff length != 8. print/from_str round trip is NOT covered here.", "4 C15"),
+    'C16': ("model_checking", "All pairs of byte strings of 0..=9 bytes in the four representation combinations: outside the region of the recorded finding concat is exact "
+            "byte-string concatenation and leaves operands unchanged; inside the region the solver's counterexample is reported as KNOWN-FINDING.", "4 C16"),
+}
 checks = []
+for pid, (cat, text, ref) in KCHECKS.items():
+    checks.append({
+        "property_id": pid,
+        "quick_cmd": "./check %s --tier quick" % pid,
+        "thorough_cmd": "./check %s --tier thorough" % pid,
+        "evidence_file": "evidence/%s.json" % pid,
+        "replay_cmd_template": "./check %s --replay {path}" % pid,
+        "engine": "K",
+        "level_claimed": {"category": cat, "text": text, "design_ref": "DESIGN.md section " + ref},
+        "level_note": K_NOTE,
+        "technique": K_TECH,
+    })
 for pid, (cat, text, ref) in CHECKS.items():
     checks.append({
         "property_id": pid,
@@ -44,7 +67,7 @@ NA = {
 }
 na = []
 for p in props:
-    if p['id'] in CHECKS:
+    if p['id'] in CHECKS or p['id'] in KCHECKS:
         continue
     na.append({"property_id": p['id'], "reason": NA.get(p['id'], "check not built yet (framework under construction)")})
 
@@ -53,7 +76,8 @@ m = {
     "setup_cmd": "./setup.sh",
     "hooks": {"guard": "cargo feature `verif`", "enable": "sodg = { path = \"/repo\", features = [\"verif\"] } in /verif/drv/Cargo.toml (driver crate built by every check)",
               "baseline_off_cmd": "cd /repo && cargo test --workspace --no-fail-fast --offline", "source_commits": hook, "add_only": True},
-    "engines": [{"name": "S", "path": "seir/", "serves_properties": sorted(CHECKS), "kind_free_text": "symbolic executor for rustc-emitted LLVM IR (Python) with z3; IR regenerated from /repo by building /verif/drv on every run"}],
+    "engines": [{"name": "K", "path": "kani/", "serves_properties": sorted(KCHECKS), "kind_free_text": "Kani 0.68 / CBMC 6.11 proof harnesses for sodg::Hex in a separate crate with a path dependency on /repo (no hooks)"},
+                {"name": "S", "path": "seir/", "serves_properties": sorted(CHECKS), "kind_free_text": "symbolic executor for rustc-emitted LLVM IR (Python) with z3; IR regenerated from /repo by building /verif/drv on every run"}],
     "checks": checks,
     "notes": "exit 2 from a check means inconclusive (unsupported IR, solver gave up, counterexample that does not reproduce natively); known findings and repairs are in known_findings.txt",
     "not_applicable": na,
